@@ -167,7 +167,12 @@ theorem TIg.arrive {x : Option Nat} {s : CBelt} (h : TIg x s) (p : MProc) (hx : 
       · refine TIg.endProc ?_ p hx
         exact (TIg.frS h1 (FrS.trigGet _)).frS (FrS.trigPut _)
     · refine (TIg.endProc ?_ p hx).giveUp
-      exact h.leave rfl rfl hsub rfl rfl rfl rfl rfl (fun a ha => Or.inl ha)
+      refine h.leave rfl rfl hsub rfl rfl rfl rfl rfl ?_
+      intro a ha
+      rcases List.mem_append.mp ha with ha | ha
+      · exact Or.inl ha
+      · simp at ha; subst ha
+        exact Or.inr ⟨ent, hent, by rw [hs1, hseq'], by simp only; rw [hs2]; omega⟩
 
 theorem pred_mul_add' (c d : Nat) (h : 1 ≤ c) : (c - 1) * d + d = c * d := by
   have : c = (c - 1) + 1 := by omega
